@@ -472,6 +472,13 @@ def intrinsic (d : Dialect) (name : String) (args : List Val) : CM Val := do
       | some w => pure (match resKind with | some .i32 => .i32 (f w) | some .u32 => .u32 (f w) | _ => likeInt v (f w))
       | none => throw (.stuck (name ++ " operand"))) x
   let popc (w : W) : W := BitVec.ofNat 32 (popcount w)
+  let fieldArgs (o c : Val) : CM (Nat × Nat) := do
+    let nat (v : Val) : CM Nat := match v with
+      | .u32 a => pure a.toNat
+      | .i32 a => if a.msb then throw (.ub (name ++ ": negative offset / bits")) else pure a.toNat
+      | _ => throw (.stuck (name ++ " offset / bits"))
+    let (o', c') := (← nat o, ← nat c)
+    if o' + c' > 32 then throw (.ub (name ++ ": offset + bits exceeds the width")) else pure (o', c')
   let fl1 (f : Float32 → Float32) (x : Val) : CM Val :=
     vmap (fun v => match v with | .f32 a => pure (.f32 (fun1 f a)) | _ => throw (.stuck (name ++ " operand"))) x
   match d, name, args with
@@ -527,6 +534,20 @@ def intrinsic (d : Dialect) (name : String) (args : List Val) : CM Val := do
   | .msl, "packed_uchar4", [.vec [a, b, c, d]] | .msl, "packed_char4", [.vec [a, b, c, d]] => do
     let lo (v : Val) : CM Val := match wOf v with | some w => pure (.u32 (w &&& 0xFF#32)) | none => throw (.stuck (name ++ " operand"))
     pure (.comp [← lo a, ← lo b, ← lo c, ← lo d])
+  -- bit fields: MSL §6.? extract_bits / insert_bits and GLSL §8.8 bitfieldExtract / bitfieldInsert are undefined when
+  -- offset + bits exceeds the width (GLSL also for negative arguments)
+  | .msl, "extract_bits", [x, o, c] | .glsl, "bitfieldExtract", [x, o, c] => do
+    let (o', c') ← fieldArgs o c
+    vmap (fun v => match v with
+      | .i32 a => pure (.i32 (extractField true a o' c'))
+      | .u32 a => pure (.u32 (extractField false a o' c'))
+      | _ => throw (.stuck (name ++ " operand"))) x
+  | .msl, "insert_bits", [x, n, o, c] | .glsl, "bitfieldInsert", [x, n, o, c] => do
+    let (o', c') ← fieldArgs o c
+    vzip (fun a b => match a, b with
+      | .i32 a, .i32 b => pure (.i32 (insertField a b o' c'))
+      | .u32 a, .u32 b => pure (.u32 (insertField a b o' c'))
+      | _, _ => throw (.stuck (name ++ " operands"))) x n
   | .msl, "popcount", [x] => bitFn popc none x
   | .msl, "reverse_bits", [x] => bitFn reverseBitsW none x
   | .msl, "clz", [x] => bitFn (fun w => BitVec.ofNat 32 (clzW w)) none x
